@@ -1000,14 +1000,23 @@ class Columns(Widget, WidgetContainerMixin, WidgetContainerListContentsMixin):
                 )
             )
 
+        # the width of a packed column is its widget's own answer: the result depends on it even when nothing of it is drawn
+        hidden = [w for width, (w, (t, _n, _b)) in zip(widths, self.contents) if width <= 0 and t == WHSettings.PACK]
+
         if not data:
             if size:
-                return SolidCanvas(" ", size[0], (size[1:] + (1,))[0])
+                blank = SolidCanvas(" ", size[0], (size[1:] + (1,))[0])
+                if hidden:
+                    blank = CompositeCanvas(blank)
+                    blank.set_depends(hidden)
+                return blank
             raise ColumnsError("No data to render")
 
         canvas = CanvasJoin(data)
         if size and canvas.cols() < size[0]:
             canvas.pad_trim_left_right(0, size[0] - canvas.cols())
+        if hidden:
+            canvas.set_depends([self.contents[i][0] for _canv, i, _focus, _width in data] + hidden)
         return canvas
 
     def get_cursor_coords(self, size: tuple[()] | tuple[int] | tuple[int, int]) -> tuple[int, int] | None:
